@@ -104,7 +104,8 @@ func AsStreamProcessorFactory(f ProcessorFactory) h2.StreamProcessorFactory {
 // Processor processes gRPC traffic.
 type Processor interface {
 	h2.HeaderProcessor
-	// Message receives serialized messages.
+	// Message receives serialized messages. A nil `data` with `streamEnded` set signals the end of
+	// a stream that carries no further message; an empty message has non-nil, zero-length `data`.
 	Message(data []byte, streamEnded bool) error
 }
 
@@ -285,6 +286,11 @@ func (e *emitter) Header(
 }
 
 func (e *emitter) Message(data []byte, streamEnded bool) error {
+	if data == nil && streamEnded {
+		// The stream ended on an empty DATA frame (see adapter.Data): there is no message, so
+		// forward just the end of the stream instead of framing a zero-length message.
+		return e.sink.Data(nil, true)
+	}
 	// Applies compression to `data` depending on `adapter`'s state.
 	if e.adapter.compressed {
 		switch e.adapter.encoding {
